@@ -136,6 +136,22 @@ fn bad_proto(r: &mut Rng, proto: &[Rec], registered: &[String], allow_f10: bool)
                 }
             }
         }
+        0 if !registered.is_empty() && r.chance(1, 3) => {
+            // one component of a triple or pair replaced by an extension attribute with exactly
+            // the missing standard tag name: the standard attribute is still missing
+            let groups: Vec<Vec<u8>> = vec![vec![CX, CY, CZ], vec![SR, SA, SE], vec![RED, GREEN, BLUE], vec![RCOUNT, RINDEX]];
+            let present: Vec<&Vec<u8>> = groups.iter().filter(|g| g.iter().all(|i| pos(&p, *i).is_some())).collect();
+            if let Some(g) = present.first() {
+                let victim = *r.pick(g);
+                if let Some(i) = pos(&p, victim) {
+                    let dt = p[i].dt.clone();
+                    p[i] = Rec { name: Name::Ext { ns: registered[0].clone(), name: STD_NAMES[victim as usize].to_string() }, dt };
+                }
+            } else {
+                p.retain(|x| !matches!(x.name, Name::Std(i) if i == CY));
+                p.push(Rec { name: Name::Ext { ns: registered[0].clone(), name: "cartesianY".into() }, dt: DType::Double { min: None, max: None } });
+            }
+        }
         0 => {
             // drop one coordinate component
             let coords: Vec<usize> = p.iter().enumerate().filter(|(_, x)| matches!(x.name, Name::Std(i) if i <= CZ || (SR..=SE).contains(&i))).map(|(i, _)| i).collect();
